@@ -46,7 +46,7 @@ from vf.mon import audit as auditmod
 
 ID = "C29"
 LEVEL = "exploration"
-RULE = ("case = (temp, clean, filed, extensioned) x op script (13 scripts: reopen/reuse/clear/close, and reopen flipping temp or changing headDirPath with/without clear) x name (plain, nested a/b, "
+RULE = ("case = (temp, clean, filed, extensioned) x op script (16 scripts: reopen/reuse/clear/close, and reopen flipping temp or changing headDirPath with/without clear) x name (plain, nested a/b, "
         "dotted a.b, ./x, x/../y, '../'*k+e for k=1..5; each with and without an extension) x base ('', plain, nested, dotted, ./b, "
         "b/../c, '../'*k for k=1..5) x prior state at the path (none / left by a directory Filer / left by a file Filer) x head "
         "(usable / blocked so the alt head is used). quick: the full product flags x names x bases (script, prior, head drawn from the "
@@ -69,11 +69,14 @@ REQUIRE = {"windows_judged": 5000, "audit_events_judged": 10000, "snapshot_diff_
            "clear_closes_judged": 1000, "cases_opened": 1200, "cases_temp": 500, "cases_alt_head_used": 50,
            "sentinel_checks": 20000, "cases_name_stays_inside_head": 1000, "neighbours_planted": 1500,
            "flip_reopens_judged": 300, "flip_to_temp_clear_of_persistent_file_path_with_neighbour": 40,
-           "head_change_reopens_judged": 100}
+           "head_change_reopens_judged": 100, "reopen_clear_on_closed_filer_judged": 100,
+           "reopen_clear_old_entries_checked": 800, "temp_clean_cases_with_persistent_twin": 150,
+           "openfiler_contexts_entered": 60}
 EXHAUSTIVE = {"quick": "flags(16) x names(20) x bases(11) = 3520 configurations (op script, prior state, head mode seeded) "
-                       "+ flags(16) x op scripts(13) x 6 name/base pairs = 1248",
-              "thorough": "flags(16) x op scripts(13) x names(20) x bases(11) = 45760 configurations, the non-temp half with 2 of the 6 "
-                          "(prior, head mode) combinations each (rotating with the seed): 68640 cases"}
+                       "+ flags(16) x op scripts(16) x 6 name/base pairs = 1536",
+              "thorough": "flags(16) x op scripts(16) x names(20) x bases(11) = 56320 configurations; not temp: 2 of the 6 (prior, head mode) "
+                          "combinations for the 7 core scripts, 1 otherwise (rotating with the seed); temp: a persistent twin of "
+                          "both kinds when clean, one rotating kind otherwise: 82720 cases"}
 
 DEPTH = 12
 # tmpfs when there is one: rmdir/fsync on the disk-backed /tmp of this machine cost 5 ms each
@@ -100,7 +103,13 @@ SCRIPTS = {
     "head2-clear": [["reopen", {"headDirPath": "head2", "clear": True}], ["close", {"clear": True}]],
     "head2-keep-then-flip": [["reopen", {"headDirPath": "head2"}], ["reopen", {"temp": "flip", "clear": True}],
                              ["close", {"clear": True}]],
+    # reopen(clear=True) on a Filer that was closed WITHOUT clear before: the stale content must still go
+    "close-reclear-clear": [["close", {}], ["reopen", {"clear": True}], ["close", {"clear": True}]],
+    "close-reusereclear-clear": [["close", {}], ["reopen", {"reuse": True, "clear": True}], ["close", {"clear": True}]],
+    # the context manager: with openFiler(cls=..., temp=..., clean=...) as filer: ...   (exit closes with clear=filer.temp)
+    "openfiler": [["ctx"]],
 }
+CORE_SCRIPTS = ["clear", "reuse-clear", "reclear-clear", "reuseclear-clear", "close-reopen-clear", "lazy-clear", "keep"]
 PRIORS = ["none", "dir", "file"]
 HEADS = ["ok", "blocked"]
 
@@ -111,18 +120,18 @@ QUICK_PAIRS = [("x", ""), ("a/b", "p/q"), ("x/../y.dat", "./b"), ("../e", "bs"),
 
 def cases(tier, seed, shard, nshards):
     """quick:    flags x names x bases, op script / prior / head mode drawn from the seed   (3520 configurations)
-                 + flags x op scripts x QUICK_PAIRS, prior / head mode drawn from the seed    (1248)
-       thorough: flags x op scripts x names x bases (45760 configurations); when not temp each with two of the six
-                 (prior, head mode) combinations, rotating with the configuration index and the seed so that seeds 0..2
-                 cover all six (temp ignores HeadDirPath and always starts from a fresh directory)"""
+                 + flags x op scripts x QUICK_PAIRS, prior / head mode drawn from the seed    (1536)
+       thorough: flags x op scripts x names x bases (56320 configurations); not temp: two (core scripts) or one of the six
+                 (prior, head mode) combinations, rotating with the configuration index and the seed; temp: a persistent
+                 twin at the same base/name of both kinds when clean, of one rotating kind (or none) otherwise"""
     flags = list(itertools.product([False, True], repeat=4))
     scripts = list(SCRIPTS)
     n = -1
 
     def drawn(n, temp):
         rng = random.Random(f"{seed}:C29:{tier}:{n}")       # per configuration, independent of the sharding
-        if temp:
-            return rng, "none", "ok"
+        if temp:                       # a persistent resource of the same base/name may exist next to a temp Filer
+            return rng, rng.choice(PRIORS), "ok"
         return rng, rng.choice(PRIORS), rng.choice(["ok", "ok", "blocked"])
 
     def mk(fl, script, name, base, prior, head):
@@ -146,10 +155,14 @@ def cases(tier, seed, shard, nshards):
         n += 1
         if n % nshards != shard:
             continue
-        if fl[0]:
-            yield mk(fl, script, name, base, "none", "ok")
-        else:                                   # two of the six (prior, head) combinations, rotating with n and the seed
-            for j in (0, 3):
+        if fl[0]:                               # temp: HeadDirPath is not used; a persistent twin may pre-exist
+            if fl[1]:                           # temp and clean: with both kinds of persistent twin
+                yield mk(fl, script, name, base, "dir", "ok")
+                yield mk(fl, script, name, base, "file", "ok")
+            else:
+                yield mk(fl, script, name, base, PRIORS[(n + seed) % 3], "ok")
+        else:                                   # (prior, head) combinations rotating with n and the seed:
+            for j in ((0, 3) if script in CORE_SCRIPTS else (0,)):      # two of the six for the core scripts, one otherwise
                 prior, head = combos[(n + seed + j) % 6]
                 yield mk(fl, script, name, base, prior, head)
 
@@ -304,7 +317,7 @@ class Judge:
         c = self.case
         return "".join(k[0] for k in ("temp", "clean", "filed", "extensioned") if c[k]) or "-"
 
-    def window(self, phase, fn, filer=None, clearing=False):
+    def window(self, phase, fn, filer=None, clearing=False, as_temp=None):
         """run fn() inside an audit window between two snapshots and judge it; returns (ok, result-or-exception)"""
         ctx, box = self.ctx, self.box
         before = self.last if self.last is not None else auditmod.snapshot(box.root)
@@ -312,6 +325,8 @@ class Judge:
         own_path = filer.path if filer is not None else None
         own_temp = list(self.tempdirs)
         self.tb = self.ta = bool(filer.temp) if filer is not None else bool(self.case["temp"])
+        if as_temp is not None:                 # the persistent twin planted before a temp Filer runs
+            self.tb = self.ta = as_temp
         outcome = None
         with AUDIT.window(guard_root=box.root) as log:
             try:
@@ -328,6 +343,7 @@ class Judge:
         after = auditmod.snapshot(box.root)
         ctx.count("snapshots_taken")
         self.last = after
+        self.win_before, self.win_after = before, after
         if filer is not None:
             self.ta = bool(filer.temp)
         if log.errors:
@@ -382,6 +398,16 @@ class Judge:
             ctx.count("clear_closes_judged")
             # the path being cleared was made under the regime the Filer had BEFORE the call
             own = own_temp if self.tb else ([own_path] if own_path else [])
+            if phase == "reopen" and filer is not None and filer.path:
+                # the remake half of a reopen works at the NEW path: with clean it removes what is there (documented:
+                # "remove old directory or file at clean path if any"; when a file sits at a directory path the tree
+                # removes the holding directory - inside the head, counted, see notes/C29.md)
+                own = own + [filer.path]
+                if self.case["clean"]:
+                    parent = os.path.dirname(filer.path)
+                    if any(rel_to(p, parent) == "in" and rel_to(p, filer.path) == "out" for p in removed):
+                        ctx.count("clean_remake_removed_siblings_at_new_path")
+                    own.append(parent)
             lost = [n for n in self.neighbours if n in removed]
             if lost:
                 ctx.count("neighbours_removed_by_clearing_window:" + ("temp" if self.tb else "persistent"))
@@ -503,19 +529,39 @@ def _run(case, ctx, box, first):
     judge.last = first
     kw = dict(name=case["name"], base=case["base"], temp=case["temp"], clean=case["clean"])
 
-    # prior state: something an earlier run left at the same path (only meaningful when not temp)
-    if case["prior"] != "none" and not case["temp"]:
+    # prior state: something an earlier PERSISTENT run left at the same base/name.  For a temp Filer that is a resource it
+    # did not create and must not touch (its own head is its temp directory), with neighbours of its own.
+    if case["prior"] != "none":
         def prior():
-            p = Sand(filed=(case["prior"] == "file"), extensioned=case["extensioned"], **kw)
+            p = Sand(filed=(case["prior"] == "file"), extensioned=case["extensioned"], **dict(kw, temp=False))
             if p.file:
                 p.file.write("prior content\n")
             p.close()
             return p
-        judge.window("prior", prior)
+        pok, twin = judge.window("prior", prior, as_temp=False)
+        if case["temp"] and pok and twin.path:
+            ctx.count("temp_cases_with_persistent_twin")
+            if case["clean"]:
+                ctx.count("temp_clean_cases_with_persistent_twin")
+            extra = [os.path.join(os.path.dirname(twin.path), "vf-twin-neighbour.lmdb")]
+            if os.path.isdir(twin.path):
+                extra.append(os.path.join(twin.path, "data.mdb"))
+            for e in extra:
+                if os.path.isdir(os.path.dirname(e)) and not os.path.lexists(e):
+                    with open(e, "w") as f:
+                        f.write("persistent, not yours")
+                    judge.last = None
 
-    lazy = SCRIPTS[case["script"]][0][0] == "lazy"
-    ok, filer = judge.window("open", lambda: Sand(filed=case["filed"], extensioned=case["extensioned"],
-                                                  reopen=not lazy, **kw))
+    first_op = SCRIPTS[case["script"]][0][0]
+    lazy = first_op == "lazy"
+    cm = None
+    if first_op == "ctx":
+        cm = filing.openFiler(cls=Sand, filed=case["filed"], extensioned=case["extensioned"], **kw)
+        ok, filer = judge.window("open", cm.__enter__)
+        ctx.count("openfiler_contexts_entered")
+    else:
+        ok, filer = judge.window("open", lambda: Sand(filed=case["filed"], extensioned=case["extensioned"],
+                                                      reopen=not lazy, **kw))
     if not ok:
         ctx.seen("open_outcome", [type(filer).__name__, nameclass])
         return
@@ -536,6 +582,13 @@ def _run(case, ctx, box, first):
             judge.last = None
         if filer.file and not filer.file.closed:
             filer.file.write("data\n")
+        # content of its own inside a directory Filer's path
+        if filer.opened and not filer.filed and not filer.extensioned and filer.path and os.path.isdir(filer.path):
+            own = os.path.join(filer.path, "vf-own-content.txt")
+            if not os.path.lexists(own):
+                with open(own, "w") as f:
+                    f.write("stale unless cleared")
+                judge.last = None
         # a neighbour: another entry of the directory that holds the Filer's path (another Filer with the same base ...)
         if filer.opened and filer.path and nameclass == "name-inside-head" and os.path.isdir(os.path.dirname(filer.path)):
             nb = os.path.join(os.path.dirname(filer.path), "vf-neighbour.txt")
@@ -545,7 +598,18 @@ def _run(case, ctx, box, first):
                 judge.neighbours.add(nb)
                 judge.last = None
                 ctx.count("neighbours_planted")
+        if op[0] == "ctx":
+            clearing = bool(filer.temp)
+            ok, res = judge.window("close", lambda: cm.__exit__(None, None, None), filer=filer, clearing=clearing)
+            if ok and clearing:
+                ctx.count("clear_path_gone_checks")
+                if filer.path and os.path.lexists(filer.path):
+                    ctx.violation(judge.key("clear-left-own-path-behind"),
+                                  f"after leaving openFiler(temp=True) {judge.short(filer.path)} still exists (flags={judge.flags()})")
+            steps.append(["ctx-exit", {"clear": clearing}, "ok" if ok else type(res).__name__])
+            break
         kwargs = dict(op[1])
+        old_path, was_opened = filer.path, bool(filer.opened)
         if kwargs.get("temp") == "flip":
             kwargs["temp"] = not filer.temp
             ctx.count("flip_reopens_judged")
@@ -561,6 +625,24 @@ def _run(case, ctx, box, first):
             kwargs["clean"] = case["clean"]
             ok, res = judge.window("reopen", lambda: filer.reopen(**kwargs), filer=filer,
                                    clearing=bool(kwargs.get("clear")))
+            if ok and kwargs.get("clear") and old_path:
+                # O4: reopen(clear=True) clears what was at the path before, also when the Filer had been closed before
+                ctx.count("reopen_clear_old_content_judged")
+                if not was_opened:
+                    ctx.count("reopen_clear_on_closed_filer_judged")
+                same_place = filer.path == old_path
+                b4, aft = judge.win_before, judge.win_after
+                for p in [q for q in b4 if rel_to(q, old_path) != "out"]:
+                    ctx.count("reopen_clear_old_entries_checked")
+                    if aft.get(p) is None or (same_place and b4[p][0] == "d"):
+                        continue                # gone, or a directory made again at the same place
+                    if aft[p] == b4[p]:
+                        ctx.violation(judge.key("reopen-clear-left-old-content:" + ("temp" if judge.tb else "persistent")
+                                                + (":filer-was-closed" if not was_opened else "")),
+                                      f"reopen({kwargs}) on {'an opened' if was_opened else 'a closed'} Filer: "
+                                      f"{judge.short(p)} (at/under the old path {judge.short(old_path)}) survived unchanged; "
+                                      f"new path {judge.short(str(filer.path))} flags={judge.flags()} script={case['script']}")
+                        break
         else:
             ok, res = judge.window("close", lambda: filer.close(**kwargs), filer=filer,
                                    clearing=bool(kwargs.get("clear")))
